@@ -332,6 +332,7 @@ class Sym(AbstractValue):
     def __init__(self, name, rank):
         self.name = name
         self.rank = rank
+        self.prov = ('sym', name)
 
     def __repr__(self):
         return 'Sym(%s@%s)' % (self.name, self.rank)
